@@ -28,8 +28,8 @@ CLAIMS.update({
                 note=REASM_NOTE, technique="Coq proof over all histories + correspondence", design="6 C03"),
     "C10": dict(text="Proof: C10_bound_and_cause_on_traces (the checker the judge evaluates on recorded histories - bound after every Push, a cause for every delivery outside Close, oldest buffered event not complete inside a window, all reconstructed from pushes and callbacks alone - accepts every run of the model: all histories, maxInFlight >= 0, timeouts, clock readings; proved by a simulation between the trace walker's state and the model's state), C10_bound_any_history (after every Push at most maxInFlight distinct sequences are undelivered, every history), C10_evicted_only_for_cause (every delivery CleanUp makes outside Close is of an event that is complete, or found more than maxInFlight buffered, or whose timeout had elapsed - every buffer, configuration, clock reading), C10_head_not_complete, C10_log_is_the_deliveries. The cause and oldest clauses are stated on the model's state; on observed traces they are decided by the trace walker (Check/ChkReasm.v) and by model agreement.",
                 note=REASM_NOTE + " Clock readings of the implementation are bracketed by harness stamps; the walker uses them conservatively.", technique="Coq proof (bound) + trace checker + correspondence", design="6 C10"),
-    "C11": dict(text="Proof (partial): Theorem C11_all_schedules_partial: in the small-step concurrent model (any threads, programs, re-entrant callbacks) every schedule delivers each put message at most once and at most one Close wins. The tie to the code is the verif yield hook: the harness forces schedules step by step and the model run on the same schedule must give the same callbacks and returns; unscheduled stress runs, close storms and a race-detector run support the runtime part.",
-                note=REASM_NOTE + " PARTIAL: data-race freedom, deadlock freedom and the behaviour of sync.Mutex/atomic are runtime facts (forced schedules with a 2 s deadlock deadline, stress runs and go -race support them); the exactly-once-after-all-returned clause is checked on traces, not yet proved.",
+    "C11": dict(text="Proof on the small-step concurrent model (any number of threads, any programs, re-entrant callbacks, every schedule): C11_all_schedules_partial (each put message delivered at most once, at most one Close wins), C11_flushed_after_close (once every frame has run, everything put before Close's Clear step has been delivered - with the former, exactly once), C11_exactly_one_close (a Close that returned means exactly one compare-and-swap won), C11_single_sequence_groups (every delivered group holds one sequence number). The tie to the code is the verif yield hook: the harness forces schedules step by step and the model run on the same schedule must give the same callbacks and returns; unscheduled stress runs, close storms and a race-detector run support the runtime part.",
+                note=REASM_NOTE + " PARTIAL: data-race freedom, deadlock freedom and the behaviour of sync.Mutex/atomic are runtime facts no Gallina model exhibits (forced schedules with a 2 s deadlock deadline, stress runs and go -race support them).",
                 technique="Coq proof over all schedules of a small-step model + forced-schedule correspondence via build-tag hook + race detector", design="6 C11"),
 })
 
